@@ -21,6 +21,13 @@ def run(ctx):
         cfgd = cfgd.replace("PROPERTIES AllReturn CancelReturns HostDeathKillsAll", "PROPERTIES HostDeathKillsAll")
     r = ctx.tlc("ContainerProto", cfg=cfgd, workers=4, timeout=2400)
     ctx.tlc_ok("ContainerProto MC with crash in every state", r)
+    # the end-of-stream path alone (no parent-death signal) must suffice
+    cfgn = open(os.path.join(vlib.VERIF, "spec", "ContainerProto_MCD.cfg")).read().replace("MaxCalls = 2", "MaxCalls = 1")
+    cfgn = cfgn.replace("SPECIFICATION SpecLive", "SPECIFICATION SpecNoPdeathsig").replace("PROPERTIES AllReturn CancelReturns HostDeathKillsAll", "PROPERTIES HostDeathKillsAll")
+    if ctx.quick():
+        cfgn = cfgn.replace('{"ping", "open", "exec"}', '{"exec"}')
+    r = ctx.tlc("ContainerProto", cfg=cfgn, workers=4, timeout=2400)
+    ctx.tlc_ok("ContainerProto MC without the parent-death signal", r)
     r = ctx.tlc("TracerCrash", workers=2, timeout=300)
     ctx.tlc_ok("TracerCrash MC", r)
     g = ctx.tlc("Crash_Gen", cfg="CONSTANTS Afters = {%s}\nINIT Init\nNEXT Next\n" % ctx.pick("0", "0, 20"), timeout=300, count=False)
@@ -34,7 +41,7 @@ def run(ctx):
         # trees whose descendants leave the program's session / process group come first
         cases.sort(key=lambda c: 0 if "s" in c["tree"] else 1)
         for c in cases:
-            k = (c["kind"], c["point"], c["sa"]) if c["kind"] == "container" else (c["kind"], c["point"], c["after"])
+            k = (c["kind"], c["point"], c["sa"], c["drop"]) if c["kind"] == "container" else (c["kind"], c["point"], c["after"])
             if k not in seen:
                 seen.add(k)
                 keep.append(c)
@@ -66,7 +73,7 @@ def run(ctx):
         o = byid[x["id"]]
         c = o["case"]
         if o["alive"]:
-            key = "%s:%s:sa=%d:tree=%s" % (c["kind"], c["point"], 1 if c["sa"] else 0, c["tree"])
+            key = "%s:%s:sa=%d:tree=%s%s" % (c["kind"], c["point"], 1 if c["sa"] else 0, c["tree"], ":dropped" if c.get("drop") else "")
             ctx.violation(key, "still alive 5 s after SIGKILL of the controller: %s" % o["alive"],
                           {k: o[k] for k in ("case", "alive", "initpid", "prog_before")})
         else:
